@@ -55,14 +55,32 @@ struct ChildShared
 };
 static ChildShared *CS;
 
+static void write_decisions();
+
 static void child_atexit()
 {
   if (CS)
     {
+      if (CS->simt_used && sim_sched_active()) { sim_sched_end(&CS->st); write_decisions(); }
       CS->tsan_reports = sim_tsan_reports();
       CS->reached_exit = 1;
       simalloc_stats(&CS->simm_allocs, &CS->simm_bytes, &CS->simm_addr_hash);
     }
+}
+
+static std::string g_decisions_out;
+
+static void write_decisions()
+{
+  if (g_decisions_out.empty()) return;
+  FILE *f = fopen(g_decisions_out.c_str(), "w");
+  if (!f) return;
+  const std::vector<SimDecision> &d = sim_decisions();
+  fputc('[', f);
+  for (size_t i = 0; i < d.size(); ++i)
+    fprintf(f, "%s[\"%c\",%d,%d,%d]", i ? "," : "", d[i].kind, d[i].n, d[i].chosen, d[i].dflt);
+  fputs("]\n", f);
+  fclose(f);
 }
 
 static void simt_fatal(const char *klass, const std::string &details)
@@ -73,6 +91,7 @@ static void simt_fatal(const char *klass, const std::string &details)
       strncpy(CS->fatal_details, details.c_str(), sizeof(CS->fatal_details) - 1);
       sim_sched_end(&CS->st);
     }
+  write_decisions();
   _exit(112);
 }
 
@@ -204,22 +223,93 @@ static void run_child(const JVal &spec)
 	      for (size_t i = 0; i < d->a.size(); ++i) c.replay.push_back((int) d->a[i].n);
 	    }
 	CS->simt_used = 1;
+	g_decisions_out = t->str("decisions_out");
 	sim_tsan_tag(c.seed);
 	sim_sched_begin(c, simt_fatal);
       }
   int rc = TOOL_MAIN((int) args.size(), &argv[0]);
   CS->main_rc = rc;
-  if (CS->simt_used) sim_sched_end(&CS->st);
+  if (CS->simt_used) { sim_sched_end(&CS->st); write_decisions(); }
   exit(rc);
+}
+
+
+// the part of a result record that comes from the run child (shared page)
+static void print_child_info(FILE *resf)
+{
+  SfShared *S = simf_shared();
+#define printf(...) fprintf(resf, __VA_ARGS__)
+      printf(",\"tsan_reports\":%ld,\"mkdtemp_calls\":%d", CS->tsan_reports, CS->mkdtemp_calls);
+      if (S->active)
+	{
+	  printf(",\"simf\":{\"crashed\":%d,\"trapped\":%ld,\"passthrough\":%ld,\"io_hash\":\"%016llx\",\"io_events\":%ld,\"system_calls\":%d,\"bytes_at_system\":[%ld,%ld],\"objects\":[",
+		 S->crashed, S->trapped_total, S->passthrough_total, (unsigned long long) S->io_hash, S->io_events, S->system_calls,
+		 S->bytes_at_system[0], S->bytes_at_system[1]);
+	  for (int i = 0; i < S->nobj; ++i)
+	    {
+	      const SfObj &o = S->obj[i];
+	      printf("%s{\"writes\":%ld,\"reads\":%ld,\"closes\":%ld,\"fsyncs\":%ld,\"opens\":%ld,\"bytes_w\":%ld,\"bytes_w_requested\":%ld,\"bytes_r\":%ld,\"failed_ops\":%d,\"close_failed\":%d}",
+		     i ? "," : "", o.calls[SF_WRITE], o.calls[SF_READ], o.calls[SF_CLOSE], o.calls[SF_FSYNC], o.calls[SF_OPEN], o.bytes_w,
+		     o.bytes_w_requested, o.bytes_r, o.failed_ops, o.close_failed);
+	    }
+	  printf("],\"fired\":[");
+	  for (int i = 0; i < S->nfault; ++i) printf("%s%d", i ? "," : "", S->fault[i].fired);
+	  printf("]}");
+	}
+      if (CS->simt_used)
+	{
+	  const SimStats &s = CS->st;
+	  printf(",\"simt\":{\"steps\":%ld,\"switches\":%ld,\"threads\":%ld,\"lock_ops\":%ld,\"wait_ops\":%ld,\"signal_ops\":%ld,\"broadcast_ops\":%ld,"
+		 "\"signals_lost_empty\":%ld,\"signal_choices\":%ld,\"spurious_fired\":%ld,\"starve_skips\":%ld,\"lock_contended\":%ld,\"max_enabled\":%ld,"
+		 "\"log_hash\":\"%016llx\",\"sched_hash\":\"%016llx\",\"fatal_class\":\"%s\",\"fatal_details\":\"%s\"}",
+		 s.steps, s.switches, s.threads_created, s.lock_ops, s.wait_ops, s.signal_ops, s.broadcast_ops, s.signals_lost_empty, s.signal_choices,
+		 s.spurious_fired, s.starve_skips, s.lock_contended, s.max_enabled, (unsigned long long) s.log_hash, (unsigned long long) s.sched_hash,
+		 jesc(CS->fatal_class).c_str(), jesc(CS->fatal_details).c_str());
+	}
+      if (CS->simm_allocs)
+	printf(",\"simm\":{\"allocs\":%ld,\"bytes\":%ld,\"addr_hash\":\"%016llx\"}", CS->simm_allocs, CS->simm_bytes, (unsigned long long) CS->simm_addr_hash);
+#undef printf
+}
+
+static const char *g_direct_result;
+static void direct_atexit()
+{
+  // direct mode: this process is the run child; leave the child-side record where the orchestrator finds it
+  if (!g_direct_result) return;
+  FILE *f = fopen(g_direct_result, "w");
+  if (!f) return;
+  fprintf(f, "{\"reached_exit\":%d", CS->reached_exit);
+  print_child_info(f);
+  fprintf(f, "}\n");
+  fclose(f);
 }
 
 int main(int argc, char **argv)
 {
-  (void) argc; (void) argv;
   signal(SIGPIPE, SIG_IGN);
   simf_shared();
   CS = (ChildShared *) mmap(0, sizeof(ChildShared), PROT_READ | PROT_WRITE, MAP_SHARED | MAP_ANONYMOUS, -1, 0);
   if (CS == MAP_FAILED) { perror("mmap"); return 2; }
+  if (argc == 4 && !strcmp(argv[1], "--direct"))
+    {
+      // No fork (ThreadSanitizer cannot start threads in the child of a forked multi-threaded
+      // process): run exactly one specification in this very process.
+      FILE *sf = fopen(argv[2], "r");
+      if (!sf) { perror(argv[2]); return 2; }
+      char *l = 0; size_t c = 0;
+      if (getline(&l, &c, sf) <= 0) return 2;
+      fclose(sf);
+      JParser jp(l);
+      JVal spec = jp.parse();
+      if (!jp.ok || spec.t != JVal::OBJ) { fprintf(stderr, "bad spec\n"); return 2; }
+      memset(CS, 0, sizeof *CS);
+      simf_reset();
+      g_direct_result = argv[3];
+      atexit(direct_atexit);
+      signal(SIGPIPE, SIG_DFL);
+      run_child(spec);
+      return 115;
+    }
   char *line = 0; size_t cap = 0; ssize_t len;
   // The children inherit the server's stdio objects.  The server therefore never uses the FILE 'stdout'
   // (its buffering mode must be decided freshly by glibc in each child, from the child's own fd 1);
@@ -265,35 +355,7 @@ int main(int argc, char **argv)
       printf("{\"id\":%lld,\"exit\":%d,\"signal\":%d,\"wall_killed\":%d,\"cpu_ms\":%ld,\"wall_ms\":%ld,\"reached_exit\":%d,\"maxrss_kb\":%ld",
 	     spec.num("id", 0), WIFEXITED(status) ? WEXITSTATUS(status) : -1, WIFSIGNALED(status) ? WTERMSIG(status) : 0, (int) wall_killed,
 	     cpu_ms, t1 - t0, CS->reached_exit, ru.ru_maxrss);
-      printf(",\"tsan_reports\":%ld,\"mkdtemp_calls\":%d", CS->tsan_reports, CS->mkdtemp_calls);
-      if (S->active)
-	{
-	  printf(",\"simf\":{\"crashed\":%d,\"trapped\":%ld,\"passthrough\":%ld,\"io_hash\":\"%016llx\",\"io_events\":%ld,\"system_calls\":%d,\"bytes_at_system\":[%ld,%ld],\"objects\":[",
-		 S->crashed, S->trapped_total, S->passthrough_total, (unsigned long long) S->io_hash, S->io_events, S->system_calls,
-		 S->bytes_at_system[0], S->bytes_at_system[1]);
-	  for (int i = 0; i < S->nobj; ++i)
-	    {
-	      const SfObj &o = S->obj[i];
-	      printf("%s{\"writes\":%ld,\"reads\":%ld,\"closes\":%ld,\"fsyncs\":%ld,\"opens\":%ld,\"bytes_w\":%ld,\"bytes_w_requested\":%ld,\"bytes_r\":%ld,\"failed_ops\":%d,\"close_failed\":%d}",
-		     i ? "," : "", o.calls[SF_WRITE], o.calls[SF_READ], o.calls[SF_CLOSE], o.calls[SF_FSYNC], o.calls[SF_OPEN], o.bytes_w,
-		     o.bytes_w_requested, o.bytes_r, o.failed_ops, o.close_failed);
-	    }
-	  printf("],\"fired\":[");
-	  for (int i = 0; i < S->nfault; ++i) printf("%s%d", i ? "," : "", S->fault[i].fired);
-	  printf("]}");
-	}
-      if (CS->simt_used)
-	{
-	  const SimStats &s = CS->st;
-	  printf(",\"simt\":{\"steps\":%ld,\"switches\":%ld,\"threads\":%ld,\"lock_ops\":%ld,\"wait_ops\":%ld,\"signal_ops\":%ld,\"broadcast_ops\":%ld,"
-		 "\"signals_lost_empty\":%ld,\"signal_choices\":%ld,\"spurious_fired\":%ld,\"starve_skips\":%ld,\"lock_contended\":%ld,\"max_enabled\":%ld,"
-		 "\"log_hash\":\"%016llx\",\"sched_hash\":\"%016llx\",\"fatal_class\":\"%s\",\"fatal_details\":\"%s\"}",
-		 s.steps, s.switches, s.threads_created, s.lock_ops, s.wait_ops, s.signal_ops, s.broadcast_ops, s.signals_lost_empty, s.signal_choices,
-		 s.spurious_fired, s.starve_skips, s.lock_contended, s.max_enabled, (unsigned long long) s.log_hash, (unsigned long long) s.sched_hash,
-		 jesc(CS->fatal_class).c_str(), jesc(CS->fatal_details).c_str());
-	}
-      if (CS->simm_allocs)
-	printf(",\"simm\":{\"allocs\":%ld,\"bytes\":%ld,\"addr_hash\":\"%016llx\"}", CS->simm_allocs, CS->simm_bytes, (unsigned long long) CS->simm_addr_hash);
+      print_child_info(resf);
       printf("}\n");
       RESFLUSH();
     }
